@@ -1,6 +1,9 @@
 SPECIFICATION SSpec
-CONSTANTS MaxBusy = 2
+CONSTANTS Short = {0, 1, 2}
+          Long = {}
+          MinLongs = 0
+          MaxLongs = 0
           PatLen = 2
-          MaxInit = 1
+          Inits = {0, 1}
 INVARIANT Emit
 CHECK_DEADLOCK FALSE
